@@ -16,11 +16,16 @@ import posixpath
 
 # spelled include names: some contain one another, some are spelled with ./ or are dot-files, some sit in sub-directories
 PATHS = ["inc1.asm", "defs.asm", "sub/inc2.asm", "lib/deep/code.asm", "x.inc", "SUB.ASM", "a.asm", "data.asm", "lib/inc1.asm",
-         "./dot.asm", "./.local.asm", "./sub/inc3.asm"]
+         "./dot.asm", "./.local.asm", "./sub/inc3.asm", "lnk/../shared.asm", "lnk/inner.asm", "shared.asm"]
+
+# the working directory holds one symbolic link to a directory: lnk -> real/deep.  A path through it followed by '..' is
+# where the kernel's resolution (real/shared.asm) and lexical tidying (shared.asm) part ways.
+SYMLINKS = {"lnk": "real/deep"}
 
 
 def key_of(spelled):
-    return posixpath.normpath(spelled)
+    from ..world import resolve_path
+    return resolve_path(SYMLINKS, "", spelled)
 
 
 def build_files(lines, cuts):
@@ -116,6 +121,14 @@ class C19(object):
             a = rng.randint(0, len(lines) - 1)
             b = rng.randint(a + 1, len(lines))
             cuts.append({"a": a, "b": b, "path": paths[j]})
+        nested = [(o, c) for o in cuts for c in cuts if o is not c and o["a"] <= c["a"] and c["b"] <= o["b"]]
+        if nested and rng.chance(0.25):
+            # a file that includes another file of the same name reached through the symbolic link: not a cycle
+            o, c = nested[0]
+            o["path"], c["path"] = "shared.asm", "lnk/../shared.asm"
+            for other in cuts:
+                if other is not o and other is not c and key_of(other["path"]) in ("shared.asm", "real/shared.asm"):
+                    other["path"] = "inc1.asm" if all(key_of(x["path"]) != "inc1.asm" for x in cuts) else "x.inc"
         fault = rng.weighted([(None, 70), ("missing", 8), ("self", 3), ("cycle2", 3), ("cycle3", 3), ("cycle_prefix", 3), ("sibling_names", 3), ("dot_self", 2),
                               ("is_directory", 2), ("through_file", 2), ("unreadable", 2)])
         # included files that contribute no statement (empty, comment only), possibly next to another INCLUDE line or
@@ -168,10 +181,12 @@ class C19(object):
                         wrong.add(key_of(d + "/" + spelled))                     # next to the including file
                     wrong.add(key_of(spelled.lstrip("./")))                     # leading dots and slashes eaten
                     wrong.add(posixpath.basename(spelled))                      # directory part dropped
+                    wrong.add(posixpath.normpath(spelled))                      # tidied lexically, ignoring symbolic links
                     wrong.add(key_of(spelled).lower())                          # case folded
                     wrong.add(key_of(spelled).upper())
                     for wkey in sorted(wrong):
-                        if wkey and wkey not in files and wkey != key_of(spelled) and not any(k.startswith(wkey + "/") for k in files):
+                        if wkey and wkey not in files and key_of(wkey) != key_of(spelled) and key_of(wkey) not in files \
+                                and not any(k.startswith(wkey + "/") for k in files):
                             files[wkey] = " FCB $EE,$EE,$EE\nDECOY EQU $DEC0\n"
                             files["\0decoys"] = "x"
         if fault == "missing" and included:
@@ -218,6 +233,9 @@ class C19(object):
 
     def invoke(self, files, total_lines, unreadable=None):
         w = World()
+        for link, target in sorted(SYMLINKS.items()):
+            w.symlink(link, target)
+            w.put(target + "/.keep", b"", who="SETUP")
         for path, text in sorted(files.items()):
             w.put(path, text.encode(), who="SETUP")
         if unreadable:
